@@ -37,6 +37,7 @@ struct Task {
     uint64_t next_pre = 0;   // absolute edge count at which to pre-empt (0 = none)
     int cur_op = -1;         // index of the op being executed
     bool in_call = false;    // inside a PKCS#11 call
+    bool in_act = false;     // inside a composite harness action (atomic under the 'call' policy)
     int yord = 0;            // yield ordinal inside the current op
     std::map<std::string, int> fs_nth;  // per op: fs kind -> ordinal
     std::vector<std::pair<int, uint64_t>> preempts;  // (op, edge-in-op) sorted
@@ -76,6 +77,7 @@ struct Inode {
     std::vector<std::string> order;                      // creation order of entries
     std::map<int, int> locks;                            // pid -> F_RDLCK/F_WRLCK (not part of snapshots)
     int opens = 0;
+    int rewriting_pid = 0;                               // a store sequence (truncate .. unlock/close) is under way by this pid
 };
 typedef std::shared_ptr<Inode> InodeP;
 
